@@ -215,12 +215,12 @@ mutual
         unfold rmEdit
         by_cases hv : v.isElement = true
         · simp only [HTree.value, hv, if_true, Fmap.atKids, HTree.setKids, HTree.kids, handles_node]
-          exact List.Sublist.cons₂ _ (handlesList_removeNsKidH_sublist p ks)
+          exact List.Sublist.cons_cons _ (handlesList_removeNsKidH_sublist p ks)
         · simp only [HTree.value, hv, Bool.false_eq_true, if_false]
           exact List.Sublist.refl _
       · rw [if_neg hh]
         simp only [handles_node]
-        exact List.Sublist.cons₂ _ (handlesList_rmEdit_sublist e p ks)
+        exact List.Sublist.cons_cons _ (handlesList_rmEdit_sublist e p ks)
   theorem handlesList_rmEdit_sublist (e p : Nat) : ∀ ks : List HTree,
       (handlesList (mapAtList e (rmEdit p) ks)).Sublist (handlesList ks)
     | [] => List.Sublist.refl _
